@@ -9,10 +9,13 @@ from core import Case, nlist
 from pyerr import canon_call, exc_code
 
 PROP = 'C09'
-COQ_TARGETS = ['theories/BvllStable.vo']
+COQ_TARGETS = ['theories/BvllStable.vo', 'theories/BvllGenFacts.vo']
 COQ_IMPORTS = 'From Bac Require Import Base Bvll.'
 TABLE_OBLIGATIONS = ['registry_table_exact', 'ctor_function_table', 'ctor_type_table', 'message_type_table',
-                     'ctor_length_table']
+                     'ctor_length_table',
+                     # re-proved by make against the regenerated gen/BvllFns.v (BvllGenFacts.v): translated text = hand model
+                     'message_type_is_model', 'BVLCI_update_is_model', 'BVLPDU_encode_is_model', 'BVLPDU_decode_is_model',
+                     'class_encode_is_model', 'class_decode_spec', 'gen_enc_frame_with_is_model', 'gen_dec_frame_from_is_model']
 RULE = ('cases: each of the 12 functions encoded through AnnexJCodec.indication (tables of every size 0..40, NPDU payloads '
         '{0,1,2,1496,1497}+random, IPv4 octets/ports/masks/TTLs over boundary grids incl. out-of-range and negative values, '
         'None/absent fields, addresses of the wrong length, tables changed after construction); every produced frame decoded '
@@ -20,12 +23,20 @@ RULE = ('cases: each of the 12 functions encoded through AnnexJCodec.indication 
         'random octet); every function code 0..255 x several bodies with a consistent header; all 1-octet strings, grids of '
         '2..4-octet strings; random strings; wrong length fields related to the datagram length (L-4, L+4, L-10k, byte swap, '
         'hi << (8+lo) = L) on representative frames of every function; valid short frames of every function padded with zeros / 0xFF / random fill; '
-        'one message object (built or decoded) encoded 2..3 times with its fields inspected in between; tables naming one station several times under different masks / TTLs; histories of 2..6 '
+        'one message object (built or decoded) encoded 2..3 times with its fields inspected in between, and the same object sent, changed by attribute assignment, and sent again (also changed back / changed before the first send); tables naming one station several times under different masks / TTLs; histories of 2..6 '
         'decodes/encodes on one codec (stations recurring with other masks, one NPDU forwarded for several originators, repeated '
         'tables, messages constructed without arguments) whose decoded messages are inspected after the whole history.  non-trivial = an encode of a message with >= 1 parameter octet or a refusal '
         'with a reason, a decode that delivers a message or refuses after reading >= 1 octet; distinct by (operation, input).')
 TRUSTED = ['model coq/theories/Bvll.v written by hand after bvll.py:58-123,168-700, bvllservice.py:286-317 (with the fix: commit), '
-           'pdu.py Address tuple form / unpack_ip_addr; tie = in-kernel correspondence',
+           'pdu.py Address tuple form / unpack_ip_addr; tie = in-kernel correspondence AND, for the encode/decode/update method bodies of '
+           'bvll.py (BVLCI, BVLPDU, the twelve message classes, messageType constants), translation: gen/BvllFns.v is regenerated from the '
+           'source on every run and proved equal to the model for all inputs (BvllGenFacts.v)',
+           'translator/gen_bvllfns.py: ast-level, statement-by-statement translation of those method bodies into the vocabulary of '
+           'coq/theories/BvllRt.v (hand-written meaning of PDUData put/get, attribute reads, Address(unpack_ip_addr(..)), FDTEntry(), '
+           'append, for, while-with-fuel); skipped: docstrings, `if _debug:` lines, PCI.update(..) (addressing / user data); everything '
+           'else it does not recognise aborts the translation.  Still hand-modelled (correspondence + table obligations only): the '
+           'constructors, AnnexJCodec.indication/confirmation (glue BvllGen.v), comm.PDUData, pdu.Address; Python object identity / '
+           'aliasing (shared default lists, cached objects) is outside the translated semantics and is covered by the history / objseq generators',
            'translator/gen_bvll.py: imports bacpypes.bvll in a subprocess and prints bvl_pdu_types and the constructors\' header '
            'fields as Gallina lists (gen/BvllTable.v)',
            'socket.inet_aton/inet_ntoa are inverse on dotted quads (pinned by the addrTuple observable of every decoded address)']
@@ -260,7 +271,56 @@ def objseqs(rng, tier):
             pats = patterns if (big or len(repr(m)) < 400) else [patterns[(i + j) % 4]]
             for pat in (pats if big else [pats[(i + j) % len(pats)], pats[(i + j + 2) % len(pats)]]):
                 out.append((src, m, pat))
+    # the same object sent, CHANGED by the application (attributes assigned: new TTL / result code / address / NPDU,
+    # a table whose masks or remaining times changed; sizes change only where the class recomputes its length), and
+    # sent again with nothing else in between — also changed back, and changed before the first send
+    for i, m in enumerate(msgs):
+        m2, m3 = g_changed(rng, m), g_changed(rng, m)
+        if m2 is None or m3 is None or len(repr(m)) > 4000:
+            continue
+        mods = [['enc', ('set', m2), 'enc'],
+                ['enc', 'enc', ('set', m2), 'enc', 'insp'],
+                [('set', m2), 'enc', ('set', m), 'enc'],
+                ['enc', ('set', m2), 'enc', ('set', m3), 'enc', ('set', m), 'enc']]
+        for j, src in enumerate(('build', 'decode')):
+            for pat in (mods if big else [mods[(i + j) % 4], mods[(i + j + 1) % 4]]):
+                out.append((src, m, pat))
     return out
+
+
+def g_changed(rng, m):
+    """another in-domain message of the same class whose frame differs from m's (None if the class has no parameter).
+    Write-BDT and Read-FDT-Ack keep the bvlciLength of their constructor, so the table size stays; the classes that
+    recompute the length in encode() also change size."""
+    k = m[0]
+    if k in ('rbdt', 'rfdt'):
+        return None
+    if k in ('wbdt', 'rfdtack'):
+        size = len(m[1])
+    elif k == 'rbdtack':
+        size = rng.choice([len(m[1]), rng.randrange(4)])
+    elif k in NPDU_KINDS:
+        size = rng.choice([len(m[-1]), rng.randrange(1, 60), 0])
+    else:
+        size = None
+    for _ in range(8):
+        m2 = g_msg(rng, k, True, size)
+        if spec_frame(m2) != spec_frame(m):
+            return m2
+    return None
+
+
+def assign_params(obj, m2):
+    """change the parameters of a message object to those of m2 (same class) by assigning its attributes"""
+    fin = build_msg(m2)
+    for attr in ('bvlciBDT', 'bvlciFDT', 'bvlciResultCode', 'bvlciTimeToLive', 'bvlciAddress'):
+        if hasattr(fin, attr):
+            setattr(obj, attr, getattr(fin, attr))
+    obj.pduData = fin.pduData
+
+
+def jactions(actions):
+    return [a if isinstance(a, str) else ['set', jdesc(a[1])] for a in actions]
 
 
 def run_objseq(src, m, actions):
@@ -282,6 +342,11 @@ def run_objseq(src, m, actions):
                 assert len(d.got) == 1
                 return d.got[0].pduData
             res.append(('enc', canon_call(f, list)))
+        elif isinstance(a, tuple):      # ('set', m2): parameters changed by assignment, then read back
+            def g(m2=a[1]):
+                assign_params(obj, m2)
+                return canon_obj(obj)
+            res.append(('insp', canon_call(g, list)[1:]))
         else:
             res.append(('insp', canon_call(lambda: canon_obj(obj), list)[1:]))
     return res
@@ -301,17 +366,26 @@ def flatten_results(rs):
 
 
 def case_objseq(src, m, actions):
-    exp = flatten_results(run_objseq(src, m, actions))
+    rs = run_objseq(src, m, actions)
+    if rs and rs[0][0] == 'dec' and rs[0][1] is not None and any(isinstance(a, tuple) for a in actions):
+        # the application changes the decoded object afterwards: what the decoder delivered is the snapshot taken
+        # right after the decode (sequences without changes keep comparing the object as it is after all encodes)
+        rs[0] = ('insp', [0] + rs[0][3])
+    exp = flatten_results(rs)
     hops = ['(HDec %s)' % nlist(spec_frame(m))] if src == 'decode' else []
     first = src == 'build'
+    cur = m
     for a in actions:
         if a == 'enc':
-            hops.append('(HEnc %s %s)' % (coq_constructions(m) if first else '[]', coq_msg(m)))
+            hops.append('(HEnc %s %s)' % (coq_constructions(cur) if first else '[]', coq_msg(cur)))
             first = False
+        elif isinstance(a, tuple):      # the model is pure: after the change the object IS the new message
+            cur = a[1]
+            hops.append('(HInspect %s)' % coq_msg(cur))
         else:
-            hops.append('(HInspect %s)' % coq_msg(m))
+            hops.append('(HInspect %s)' % coq_msg(cur))
     return Case('objseq', 'canon_history [%s]' % ';'.join(hops), exp, key=('objseq', src, repr(m), repr(actions)),
-                desc={'op': 'objseq', 'source': src, 'msg': jdesc(m), 'actions': actions, 'seq_repr': repr((src, m, actions))})
+                desc={'op': 'objseq', 'source': src, 'msg': jdesc(m), 'actions': jactions(actions), 'seq_repr': repr((src, m, actions))})
 
 
 def coq_hop(op):
@@ -1055,21 +1129,30 @@ def direct(rng, tier, focus=()):
         nontriv.add(('objseq', src, repr(m), repr(actions)))
         want_frame, want_fields = [0] + list(spec_frame(m)), spec_params(m)
         rs = run_objseq(src, m, actions)
-        info = dict(source=src, msg=jdesc(m), actions=actions, seq_repr=repr((src, m, actions)))
+        info = dict(source=src, msg=jdesc(m), actions=jactions(actions), seq_repr=repr((src, m, actions)))
+        sets = [a[1] for a in actions if isinstance(a, tuple)]
         if rs and rs[0][0] == 'dec':
             r = rs.pop(0)
             if r[1] is None:
                 fail('roundtrip-refused', octets=spec_frame(m).hex(), **info)
                 continue
             later = canon_obj(r[1])
-            if later != want_fields:
-                fail('encode-changed-decoded-message', after_encodes=later[:80], want=want_fields[:80], **info)
-        n_enc = 0
+            if later != (spec_params(sets[-1]) if sets else want_fields):
+                fail('encode-changed-decoded-message', after_encodes=later[:80], want=(spec_params(sets[-1]) if sets else want_fields)[:80], **info)
+        n_enc = n_set = 0
         for a, r in zip(actions, rs):
-            if a == 'enc':
+            if isinstance(a, tuple):
+                # the application changed the object: from here on the frame / fields of the NEW parameters are due
+                n_set += 1
+                want_frame, want_fields = [0] + list(spec_frame(a[1])), spec_params(a[1])
+                if r[1] != want_fields:
+                    fail('assigned-parameters-not-read-back', after_encodes=n_enc, got=r[1][:80], want=want_fields[:80], **info)
+                    break
+            elif a == 'enc':
                 n_enc += 1
                 if r[1] != want_frame:
-                    fail('repeated-encode-differs' if n_enc > 1 else 'layout', encode_number=n_enc, got=r[1][:80], want=want_frame[:80], **info)
+                    fail('resent-changed-message-differs' if n_set and n_enc > 1 else 'repeated-encode-differs' if n_enc > 1 else 'layout',
+                         encode_number=n_enc, changes_before=n_set, got=r[1][:80], want=want_frame[:80], **info)
                     break
             elif r[1] != want_fields:
                 fail('encode-changed-message' if n_enc else 'constructed-message-differs', after_encodes=n_enc, got=r[1][:80],
